@@ -21,6 +21,7 @@ type Config struct {
 	NoChown  bool
 	NoTemp   bool
 	NoChdir  bool
+	NoTmp    bool // "/tmp" is not an operand (it does not exist under Windows emulation)
 }
 
 // Inst is one generated step: usually one op, for open a short open/write/close group.
@@ -44,7 +45,10 @@ var AllKinds = []string{"Mkdir", "MkdirAll", "Open", "Create", "WriteFile", "Rea
 // plus the special operands.
 func (c Config) Paths() []string {
 	b := c.Base
-	p := []string{b + "/a", b + "/b", b + "/c", b + "/a/a", b + "/a/b", b + "/b/a", b + "/b/c", b + "/c/a", b + "/a/a/a", b + "/a/b/c", b, "/tmp"}
+	p := []string{b + "/a", b + "/b", b + "/c", b + "/a/a", b + "/a/b", b + "/b/a", b + "/b/c", b + "/c/a", b + "/a/a/a", b + "/a/b/c", b}
+	if !c.NoTmp {
+		p = append(p, "/tmp")
+	}
 	if c.Root {
 		p = append(p, "/")
 	}
